@@ -47,3 +47,45 @@ def mk_contract(bid: str, doubling: int, vul: str, declarer):
 def doubling_status(c: Contract) -> int:
     """Doubling *status* (not raw flags): redoubled if xx, else doubled if x."""
     return 2 if c.xx else (1 if c.x else 0)
+
+
+# ---- calling conventions -------------------------------------------------------------------------------------------------------
+# A caller may pass a library function's named parameters by keyword (the library's own JSON parser does).  shaped(f) asks the same
+# question positionally and by keyword (all arguments, and all but the first) and returns the positional answer only if all agree.
+SHAPE_CALLS = {'n': 0}
+_NAMES = {}
+
+
+def param_names(f, n):
+    import inspect
+    key = (getattr(f, '__qualname__', None), getattr(f, '__module__', None), n)
+    if key in _NAMES:
+        return _NAMES[key]
+    names = None
+    if str(getattr(f, '__module__', '') or '').startswith('bridge_env'):
+        try:
+            ps = list(inspect.signature(f).parameters.values())
+            if len(ps) >= n and all(q.kind is q.POSITIONAL_OR_KEYWORD for q in ps[:n]):
+                names = [q.name for q in ps[:n]]
+        except (TypeError, ValueError):
+            pass
+    _NAMES[key] = names
+    return names
+
+
+def shaped(f):
+    def call(*a):
+        r = f(*a)
+        names = param_names(f, len(a)) if a else None
+        if names:
+            for k in ((0, 1) if len(a) > 1 else (0,)):
+                SHAPE_CALLS['n'] += 1
+                try:
+                    r2 = f(*a[:k], **dict(zip(names[k:], a[k:])))
+                except Exception as e:  # noqa
+                    r2 = f'raised {type(e).__name__}: {e}'
+                if not (r2 == r and type(r2) is type(r)):
+                    return f'call shapes disagree: positional arguments -> {r!r}, {names[k:]} passed by keyword -> {r2!r}'
+        return r
+    call.__qualname__ = getattr(f, '__qualname__', 'f')
+    return call
